@@ -1372,22 +1372,42 @@ func main() {
 	if r.Replayed() {
 		return
 	}
+	// An AST shape that cannot be resolved is a stat, never a violation; a resolved value that disagrees is a
+	// tie-only alarm (key prefix "source-": props/C13.json tie_viol_prefixes). The ticker period is also measured
+	// behaviourally by the timed scenarios; the AST value is a cross-check.
 	if src.err != "" {
-		r.Viol("source-constants-not-found", "go/ast could not find: "+src.err, "readSource")
+		r.Stat("source.unresolved", 1)
+		r.Sample("source-derived constants not resolved by go/ast: " + src.err)
 	}
-	if src.tickerMs != period {
-		r.Viol("ticker-period-changed", fmt.Sprintf("the spoof loop's ticker period in the source is %d ms; the schedule of the timed scenarios and docs assume %d ms", src.tickerMs, period), "readSource")
+	if src.tickerMs >= 0 && src.tickerMs != period {
+		r.Viol("source-ticker-period", fmt.Sprintf("the spoof loop's ticker period in the source is %d ms; the schedule of the timed scenarios and docs assume %d ms", src.tickerMs, period), "readSource")
 	}
-	if src.opRequest != src.opRequestRaw || src.opReply != src.opRep {
-		r.Viol("arp-operation-constants", fmt.Sprintf("RequestRaw encodes operation %d (ARPOperationRequest = %d), reply encodes %d (ARPOperationReply = %d)", src.opRequestRaw, src.opRequest, src.opRep, src.opReply), "readSource")
+	if src.opRequestRaw >= 0 && src.opRep >= 0 && src.opRequest >= 0 && src.opReply >= 0 &&
+		(src.opRequest != src.opRequestRaw || src.opReply != src.opRep) {
+		r.Viol("source-arp-operation", fmt.Sprintf("RequestRaw encodes operation %d (ARPOperationRequest = %d), reply encodes %d (ARPOperationReply = %d)", src.opRequestRaw, src.opRequest, src.opRep, src.opReply), "readSource")
 	}
-	for _, n := range []int{src.arpLen, src.arpLen - 1, src.arpLen + 18, 0} {
-		if n >= 0 {
-			pl, _ := src.probePayload(n)
-			r.Do("srcarp", lib.Hex(pl))
+	offsetsResolved := src.arpLen >= 0
+	for _, g := range []string{"HType", "Proto", "HLen", "PLen", "Operation", "SrcMAC", "SrcIP", "DstMAC", "DstIP"} {
+		if _, ok := src.off[g]; !ok {
+			offsetsResolved = false
 		}
 	}
-	r.Do("srcops")
+	if src.htype == 0 || src.proto == 0 || src.hlen == 0 || src.plen == 0 {
+		offsetsResolved = false
+	}
+	if offsetsResolved {
+		for _, n := range []int{src.arpLen, src.arpLen - 1, src.arpLen + 18, 0} {
+			if n >= 0 {
+				pl, _ := src.probePayload(n)
+				r.Do("srcarp", lib.Hex(pl))
+			}
+		}
+	} else {
+		r.Stat("source.unresolved", 1)
+	}
+	if src.opRequestRaw >= 0 && src.opRep >= 0 {
+		r.Do("srcops")
+	}
 	r.Stat("source.ticker-ms", int64(src.tickerMs))
 	std := stdCfg().tok()
 	oracleBadArgs(r)
